@@ -460,6 +460,85 @@ func (s *slicer) resolveFreeVar(fv *ssa.FreeVar, k int, depth int) *prov {
 	return out
 }
 
+// walkSkeleton: H calls filepath.WalkDir / Walk on one of its parameters (root) with a closure that
+// calls another parameter of H (visit) with the walked path as its first argument, unchanged.
+func walkSkeleton(H *ssa.Function) (root, visit int, ok bool) {
+	root, visit, _, ok = walkSkeletonPath(H)
+	return
+}
+
+// walkSkeletonPath also reports at which position of the call of visit the walked path is handed on (-1: not at all).
+func walkSkeletonPath(H *ssa.Function) (root, visit, pathPos int, ok bool) {
+	root, visit, pathPos = -1, -1, -1
+	allInstrs(H, func(in ssa.Instruction) {
+		call, isCall := in.(*ssa.Call)
+		if !isCall || ok {
+			return
+		}
+		f := staticCallee(&call.Call)
+		if !(isFn(f, "path/filepath", "WalkDir") || isFn(f, "path/filepath", "Walk")) || len(call.Call.Args) < 2 {
+			return
+		}
+		rp, isPar := stripConv(call.Call.Args[0]).(*ssa.Parameter)
+		if !isPar {
+			return
+		}
+		cb := call.Call.Args[1]
+		if ct, isCT := cb.(*ssa.ChangeType); isCT {
+			cb = ct.X
+		}
+		mc, isMC := cb.(*ssa.MakeClosure)
+		if !isMC {
+			return
+		}
+		G, _ := mc.Fn.(*ssa.Function)
+		if G == nil || len(G.Params) == 0 {
+			return
+		}
+		allInstrs(G, func(in2 ssa.Instruction) {
+			c2, isCall2 := in2.(*ssa.Call)
+			if !isCall2 || c2.Call.IsInvoke() {
+				return
+			}
+			pp := -1
+			for ai, a := range c2.Call.Args {
+				if a == ssa.Value(G.Params[0]) {
+					pp = ai
+				}
+			}
+			// the callee is a captured parameter of H
+			v := c2.Call.Value
+			if ld, isLd := v.(*ssa.UnOp); isLd && ld.Op == token.MUL {
+				v = ld.X
+			}
+			fv, isFV := v.(*ssa.FreeVar)
+			if !isFV {
+				return
+			}
+			for i, q := range G.FreeVars {
+				if q != fv || i >= len(mc.Bindings) {
+					continue
+				}
+				b := mc.Bindings[i]
+				if al, isAl := b.(*ssa.Alloc); isAl {
+					for _, rr := range referrers(al) {
+						if st, isSt := rr.(*ssa.Store); isSt && st.Addr == ssa.Value(al) {
+							b = st.Val
+						}
+					}
+				}
+				if vp, isVP := b.(*ssa.Parameter); isVP {
+					root, visit, pathPos, ok = paramIndex(H, rp), paramIndex(H, vp), pp, true
+				}
+			}
+		})
+	})
+	if root < 0 || visit < 0 {
+		ok = false
+	}
+	return
+}
+
 func (s *slicer) resolveParam(p *ssa.Parameter, k int, depth int) *prov {
 	fn := s.fnAt(k)
 	idx := -1
@@ -482,6 +561,13 @@ func (s *slicer) resolveParam(p *ssa.Parameter, k int, depth int) *prov {
 			return s.resolve(cc.Args[idx], k-1, depth+1)
 		}
 		return &prov{Kind: "unknown", Name: "missing argument"}
+	}
+	// called through a function value by a function of the repository (a callback parameter): the
+	// arguments of that call are what the parameters receive
+	if cc != nil && !cc.IsInvoke() && cc.StaticCallee() == nil && e.Site.Parent() == s.fnAt(k-1) {
+		if _, isBuiltin := cc.Value.(*ssa.Builtin); !isBuiltin && idx < len(cc.Args) && len(cc.Args) == len(fn.Params) {
+			return s.resolve(cc.Args[idx], k-1, depth+1)
+		}
 	}
 	// callback handed to an external: filepath.WalkDir(root, fn)
 	if cc != nil {
@@ -511,6 +597,33 @@ func (s *slicer) resolveParam(p *ssa.Parameter, k int, depth int) *prov {
 						return &prov{Kind: "walkentry", Args: []*prov{s.resolve(call.Call.Args[0], k-1, depth+1)}}
 					}
 					return &prov{Kind: "walkparam", Name: p.Name()}
+				}
+			}
+		}
+		// handed to a helper of the repository that walks a directory and calls its function
+		// parameter with the walked path (a walk skeleton shared by several commands)
+		for _, r := range users {
+			call, ok := r.(*ssa.Call)
+			if !ok {
+				continue
+			}
+			H := staticFn(&call.Call)
+			if H == nil || len(H.Blocks) == 0 {
+				continue
+			}
+			if ri, vi, pp, isWalk := walkSkeletonPath(H); isWalk && vi < len(call.Call.Args) && ri < len(call.Call.Args) {
+				a := call.Call.Args[vi]
+				if ct, isCT := a.(*ssa.ChangeType); isCT {
+					a = ct.X
+				}
+				if a == ssa.Value(mc) {
+					// the closure's parameters follow its captured variables in Params
+					if pp >= 0 && idx == pp {
+						return &prov{Kind: "walkentry", Args: []*prov{s.resolve(call.Call.Args[ri], k-1, depth+1)}}
+					}
+					if pp >= 0 {
+						return &prov{Kind: "walkparam", Name: p.Name()}
+					}
 				}
 			}
 		}
@@ -795,10 +908,60 @@ func (c *Ctx) flagValues(cmd *Command, name string) (map[ssa.Value]bool, ssa.Val
 			}
 		})
 	}
+	// the flag bound to a variable: BoolVar(&x, name, ...) / BoolVarP(&opts.X, name, ...); every load of that
+	// variable (a package-level variable or a field of one) is the flag's value
+	for _, fn := range c.P.RepoFns {
+		allInstrs(fn, func(in ssa.Instruction) {
+			call, ok := in.(*ssa.Call)
+			if !ok {
+				return
+			}
+			f := staticCallee(&call.Call)
+			if !(isMeth(f, "github.com/spf13/pflag", "FlagSet", "BoolVar") || isMeth(f, "github.com/spf13/pflag", "FlagSet", "BoolVarP")) || len(call.Call.Args) < 3 {
+				return
+			}
+			if s, ok := constString(call.Call.Args[2]); !ok || s != name {
+				return
+			}
+			var gl *ssa.Global
+			field := -1
+			switch a := call.Call.Args[1].(type) {
+			case *ssa.Global:
+				gl = a
+			case *ssa.FieldAddr:
+				gl, _ = a.X.(*ssa.Global)
+				field = a.Field
+			}
+			if gl == nil {
+				return
+			}
+			for _, fn2 := range c.P.RepoFns {
+				allInstrs(fn2, func(in2 ssa.Instruction) {
+					ld, ok := in2.(*ssa.UnOp)
+					if !ok || ld.Op != token.MUL {
+						return
+					}
+					switch a := ld.X.(type) {
+					case *ssa.Global:
+						if a == gl && field < 0 {
+							vals[ld] = true
+							origin = ld
+						}
+					case *ssa.FieldAddr:
+						if g2, _ := a.X.(*ssa.Global); g2 == gl && a.Field == field {
+							vals[ld] = true
+							origin = ld
+						}
+					}
+				})
+			}
+		})
+	}
 	if origin == nil {
 		return vals, nil
 	}
 	g := c.Graph()
+	modes := map[ssa.Value]*flagMode{}
 	changed := true
 	for changed {
 		changed = false
@@ -880,12 +1043,159 @@ func (c *Ctx) flagValues(cmd *Command, name string) (map[ssa.Value]bool, ssa.Val
 						if all {
 							add(sf.Params[i])
 						}
+						// the flag turned into a mode: a helper that returns one constant when its
+						// parameter is true and another when it is false
+						if kt, kf, isSel := selectsConstBy(c, sf, i); isSel {
+							if rv := resultValue(x, 0); rv != nil && modes[rv] == nil {
+								modes[rv] = &flagMode{kt, kf}
+								changed = true
+							}
+						}
+					}
+				}
+			}
+		}
+		// modes travel through parameters like the flag itself; comparing a mode with the constant
+		// that stands for "flag set" is the flag again
+		for mv, fm := range modes {
+			for _, r := range referrers(mv) {
+				switch x := r.(type) {
+				case *ssa.BinOp:
+					var other ssa.Value
+					if x.X == mv {
+						other = x.Y
+					} else {
+						other = x.X
+					}
+					k, isK := other.(*ssa.Const)
+					if !isK {
+						continue
+					}
+					if (x.Op == token.EQL && sameConst(k, fm.whenTrue)) || (x.Op == token.NEQ && sameConst(k, fm.whenFalse)) {
+						add(x)
+					}
+				case *ssa.Call:
+					sf := staticFn(&x.Call)
+					if sf == nil || !c.P.IsRepoFn(sf) {
+						continue
+					}
+					for i, a := range x.Call.Args {
+						if a != mv || i >= len(sf.Params) || modes[sf.Params[i]] != nil {
+							continue
+						}
+						all := true
+						for _, e := range g.In[sf] {
+							cc := callCommon(e.Site)
+							if cc == nil || staticFn(cc) != sf || i >= len(cc.Args) {
+								all = false
+								continue
+							}
+							om := modes[cc.Args[i]]
+							if om == nil || !sameConst(om.whenTrue, fm.whenTrue) || !sameConst(om.whenFalse, fm.whenFalse) {
+								all = false
+							}
+						}
+						if all {
+							modes[sf.Params[i]] = fm
+							changed = true
+						}
+					}
+				case *ssa.MakeClosure:
+					for i, b := range x.Bindings {
+						if b == mv {
+							if fn, ok := x.Fn.(*ssa.Function); ok && i < len(fn.FreeVars) && modes[fn.FreeVars[i]] == nil {
+								modes[fn.FreeVars[i]] = fm
+								changed = true
+							}
+						}
+					}
+				case *ssa.Store:
+					// a variable that holds the mode (captured by a closure): every store to it is that mode
+					al, isAl := x.Addr.(*ssa.Alloc)
+					if !isAl || x.Val != mv || modes[al] != nil {
+						continue
+					}
+					all := true
+					for _, rr := range referrers(al) {
+						if st, ok := rr.(*ssa.Store); ok && st.Addr == ssa.Value(al) {
+							if om := modes[st.Val]; om == nil || !sameConst(om.whenTrue, fm.whenTrue) || !sameConst(om.whenFalse, fm.whenFalse) {
+								all = false
+							}
+						}
+					}
+					if all {
+						modes[al] = fm
+						changed = true
+					}
+				case *ssa.UnOp:
+					if x.Op == token.MUL && x.X == mv && modes[x] == nil {
+						modes[x] = fm
+						changed = true
 					}
 				}
 			}
 		}
 	}
 	return vals, origin
+}
+
+// flagMode: a value that is one constant when a flag is set and another when it is not.
+type flagMode struct{ whenTrue, whenFalse *ssa.Const }
+
+func sameConst(a, b *ssa.Const) bool {
+	return a != nil && b != nil && types.Identical(a.Type(), b.Type()) && fmt.Sprint(a.Value) == fmt.Sprint(b.Value)
+}
+
+// selectsConstBy: f returns exactly two different constants, one on the paths where its bool
+// parameter i is true and the other where it is false.
+func selectsConstBy(c *Ctx, f *ssa.Function, i int) (whenTrue, whenFalse *ssa.Const, ok bool) {
+	if len(f.Blocks) == 0 || f.Signature.Results().Len() != 1 || i >= len(f.Params) {
+		return nil, nil, false
+	}
+	p := f.Params[i]
+	if bt, isB := p.Type().Underlying().(*types.Basic); !isB || bt.Kind() != types.Bool {
+		return nil, nil, false
+	}
+	good := true
+	allInstrs(f, func(in ssa.Instruction) {
+		r, isRet := in.(*ssa.Return)
+		if !isRet {
+			return
+		}
+		var leaves []ssa.Value
+		var preds []*ssa.BasicBlock
+		if ph, isPhi := r.Results[0].(*ssa.Phi); isPhi {
+			for j, e := range ph.Edges {
+				leaves = append(leaves, e)
+				preds = append(preds, ph.Block().Preds[j])
+			}
+		} else {
+			leaves = append(leaves, r.Results[0])
+			preds = append(preds, r.Block())
+		}
+		for j, lv := range leaves {
+			k, isK := lv.(*ssa.Const)
+			if !isK {
+				good = false
+				return
+			}
+			at := preds[j].Instrs[len(preds[j].Instrs)-1]
+			onTrue := c.guardedByEdges(at, func(cond ssa.Value, val bool) bool { return cond == ssa.Value(p) && val })
+			onFalse := c.guardedByEdges(at, func(cond ssa.Value, val bool) bool { return cond == ssa.Value(p) && !val })
+			switch {
+			case onTrue && !onFalse && (whenTrue == nil || sameConst(whenTrue, k)):
+				whenTrue = k
+			case onFalse && !onTrue && (whenFalse == nil || sameConst(whenFalse, k)):
+				whenFalse = k
+			default:
+				good = false
+			}
+		}
+	})
+	if !good || whenTrue == nil || whenFalse == nil || sameConst(whenTrue, whenFalse) {
+		return nil, nil, false
+	}
+	return whenTrue, whenFalse, true
 }
 
 // knownFlagFalse: do the facts at in say that a flag value is false?
@@ -1670,8 +1980,16 @@ func (c *Ctx) sameInHelper(w *writeCtx, data ssa.Value) (why string, found bool)
 				pi = i
 			}
 		}
-		if di < 0 || pi < 0 || di >= len(H.Params) || pi >= len(H.Params) {
+		if pi < 0 || di >= len(H.Params) || pi >= len(H.Params) {
 			return
+		}
+		// the helper is handed the data itself, or what the data is computed from: then the value it
+		// compares must be the same pure expression over its parameters as the data is over the arguments
+		isData := func(x ssa.Value) bool {
+			if di >= 0 {
+				return x == ssa.Value(H.Params[di])
+			}
+			return samePureExpr(data, x, H, &call.Call, 0)
 		}
 		var eq *ssa.Call
 		allInstrs(H, func(in2 ssa.Instruction) {
@@ -1682,9 +2000,9 @@ func (c *Ctx) sameInHelper(w *writeCtx, data ssa.Value) (why string, found bool)
 			a, b := stripConv(c2.Call.Args[0]), stripConv(c2.Call.Args[1])
 			var other ssa.Value
 			switch {
-			case a == ssa.Value(H.Params[di]):
+			case isData(a):
 				other = b
-			case b == ssa.Value(H.Params[di]):
+			case isData(b):
 				other = a
 			default:
 				return
@@ -1741,6 +2059,50 @@ func (c *Ctx) sameInHelper(w *writeCtx, data ssa.Value) (why string, found bool)
 		}
 	})
 	return why, found
+}
+
+// samePureExpr: x, a value of the caller, and y, a value of the helper H called at cc,
+// are the same expression: the same constants, the same side-effect-free functions of
+// strings / bytes / path applied to the same operands, and where y is a parameter of H,
+// x is the argument handed in for it.
+func samePureExpr(x, y ssa.Value, H *ssa.Function, cc *ssa.CallCommon, d int) bool {
+	x, y = stripConv(x), stripConv(y)
+	if d > 6 {
+		return false
+	}
+	if p, ok := y.(*ssa.Parameter); ok {
+		pi := paramIndex(H, p)
+		return pi >= 0 && pi < len(cc.Args) && stripConv(cc.Args[pi]) == x
+	}
+	switch b := y.(type) {
+	case *ssa.Const:
+		a, ok := x.(*ssa.Const)
+		return ok && types.Identical(a.Type(), b.Type()) && fmt.Sprint(a.Value) == fmt.Sprint(b.Value)
+	case *ssa.Call:
+		a, ok := x.(*ssa.Call)
+		if !ok || len(a.Call.Args) != len(b.Call.Args) {
+			return false
+		}
+		fa, fb := staticCallee(&a.Call), staticCallee(&b.Call)
+		if fa == nil || fa != fb {
+			return false
+		}
+		switch objPkgPath(fa) {
+		case "strings", "bytes", "path", "path/filepath":
+		default:
+			return false
+		}
+		if recvNamed(fa) != "" {
+			return false
+		}
+		for i := range a.Call.Args {
+			if !samePureExpr(a.Call.Args[i], b.Call.Args[i], H, cc, d+1) {
+				return false
+			}
+		}
+		return true
+	}
+	return false
 }
 
 func uniq(xs []string) []string {
